@@ -17,7 +17,7 @@ func passClass(r *vh.Rng, hostile int) string {
 	if r.Intn(100) >= hostile {
 		return "cur"
 	}
-	return r.PickS("prev", "prev", "pub", "other", "other", "bad", "empty", "cur1", "curnul")
+	return r.PickS("prev", "prev", "pub", "other", "other", "bad", "empty", "cur1", "curnul", "curlong")
 }
 
 // GenOps pre-generates an abstract history (selectors are resolved against the model at run time).
@@ -50,7 +50,7 @@ func GenOps(r *vh.Rng, n int, w Weights, hostile int) []Op {
 			op.PC = passClass(r, hostile)
 		case "import":
 			op.X = r.Intn(8)
-			op.PC = r.PickS("exp", "exp", "exp", "exp", "cur", "other", "bad", "empty", "pub")
+			op.PC = r.PickS("exp", "exp", "exp", "exp", "cur", "other", "bad", "empty", "pub", "expnul")
 			op.NPC = r.PickS("", "", "cur", "cur", "other", "pub")
 		case "sign":
 			op.N = r.Intn(64)
